@@ -159,12 +159,15 @@ Definition run_geT (T : Z) (N : nat) blocks U Tg Zs outs : option (list (list (l
 Definition run_jacT (T : Z) (N : nat) blocks (Zs outs : list nat) : list (list (list (list (Z * Z)))) :=
   map (fun z => let tot := totE T N blocks z in map (fun o => map (map gout) (to_dense T (tot o))) outs) Zs.
 
-(** ---- a SolvedBlock inside a model: its Jacobian is the inner general-equilibrium Jacobian (dense) with respect to its inputs ---- *)
+(** ---- a SolvedBlock inside a model: its Jacobian is the inner general-equilibrium Jacobian with respect to its inputs.
+     SolvedBlock._jacobian returns what combine([U_Z, self.block]).jacobian returns: G[o][z] = sum_u J[o][u] @ G_U[u][z] + J[o][z] in OPERATOR form --
+     an inner output that no inner unknown affects keeps its sparse Jacobian (and is then composed exactly, without truncation, with sparse
+     Jacobians of the outer model); only entries that involve the dense G_U are dense ---- *)
 Definition solved_block (T : Z) (N : nat) (inner : list (cblock opr)) (U Tg ins outs : list nat) : option (cblock opr) :=
   match ge_solveT T N inner U Tg ins outs with
   | None => None
   | Some r => Some {| c_outs := outs; c_ins := ins;
-                      c_J := fun o m => Dn (nth (index_of o outs) (nth (index_of m ins) (ge_out r) []) []) |}
+                      c_J := fun o m => ge_entry T (map (totE T N inner) U) (map (fun row => nth (index_of m ins) row []) (ge_GU r)) (totE T N inner m) o |}
   end.
 (** the nested model: blocks before the solved block, the solved block, blocks after it; with outer unknowns (general-equilibrium
     Jacobian) or without (plain Jacobian of the model) *)
